@@ -215,8 +215,8 @@ func runReject(c RejectCase, rec *h.Rec) error {
 		case 2:
 			out = alloc(keys[second])
 		}
-		// RelinearizationKeyGenProtocol.AggregateShares has no error result: it can only combine or panic
-		call = func() error { p.AggregateShares(sh[first], sh[second], &out); return nil }
+		// (before the fix RelinearizationKeyGenProtocol.AggregateShares had no error result: it could only combine or panic)
+		call = func() error { return callErr(p.AggregateShares, sh[first], sh[second], &out) }
 	default:
 		return fmt.Errorf("unknown protocol")
 	}
